@@ -24,8 +24,19 @@ MS_2200 = 7258118400000
 # --------------------------------------------------------------------------- generation
 
 def _fmt_dt(ms, fraction):
-    """'YYYY-mm-dd HH:MM:SS[.ffffff]' of an integer millisecond (integer arithmetic)"""
-    return gen.time_string(ms, fraction=fraction).replace('T', ' ')
+    """'YYYY-mm-dd HH:MM:SS[.f...]' of an integer millisecond (integer arithmetic).
+
+    fraction: False = none (whole seconds only), True / 'us6' = six digits, 'ms3' = three digits (.250),
+    'trim' = trailing zeros removed (.25, .5) - all of them legal %f input"""
+    if not fraction:
+        return gen.time_string(ms, fraction=False).replace('T', ' ')
+    s = gen.time_string(ms, fraction=True).replace('T', ' ')
+    if fraction == 'ms3':
+        return s[:-3]
+    if fraction == 'trim':
+        t = s.rstrip('0')
+        return t + '0' if t.endswith('.') else t
+    return s
 
 
 def gen_statement(R, events, allow_datetime=True):
@@ -42,7 +53,7 @@ def gen_statement(R, events, allow_datetime=True):
     if col == 1:
         v = int(base) + R.choice((0, 0, 0, 1, -1, 1000, -500))
         if attr == 'datetime':
-            frac = True
+            frac = R.choice((True, True, 'ms3', 'trim'))
             if v % 1000 == 0 and R.random() < 0.5:
                 frac = False
             return 'datetime %s %s' % (op, _fmt_dt(v, frac)), [1, op, v]
@@ -138,7 +149,7 @@ def generate(R, tier, focus):
             # datetime statement vs origin-time statement for the same instant
             ms = R.choice(events)[1] if events and R.random() < 0.8 else R.randint(MS_1900, MS_2200)
             ms += R.choice((0, 0, 1, -1))
-            frac = not (ms % 1000 == 0 and R.random() < 0.5)
+            frac = False if (ms % 1000 == 0 and R.random() < 0.5) else R.choice((True, True, 'ms3', 'trim'))
             ops.append({'op': 'DATETIME_EQUIV', 'h': h, 'oper': R.choice(list(OPS)), 'ms': ms, 'fraction': frac,
                         'form': R.choice(('str', 'list')), 'actor': actor})
         elif x < 0.94:
